@@ -22,6 +22,7 @@ RULE = ('one logical tree (mixed-case tag names, attribute names and values, a t
         'nothing in plain XML. And PY = Lean matcher model on the tree each parser stored. Non-trivial = non-empty result.')
 
 TAGS = ['div', 'Div', 'P', 'span', 'SPAN', 'a']
+FOREIGN = ['foreignObject', 'linearGradient', 'clipPath', 'circle', 'textPath']
 ANAMES = ['title', 'Title', 'DATA-X', 'type', 'Type', 'lang']
 AVALS = ['abc', 'ABC', 'Abc', 'x', 'X', 'text', 'TEXT', 'Radio']
 HTML_ONLY = [':checked', ':disabled', ':enabled', ':required', ':optional', ':read-write', ':read-only', ':link', ':any-link',
@@ -40,6 +41,11 @@ def tree(r, depth=0):
     name = r.choice(TAGS + ['input', 'INPUT'])
     if name.lower() == 'input':
         kids = []
+    if depth < 2 and r.random() < 0.25:
+        # inline SVG with mixed-case element names (html5lib keeps them and puts them in the SVG namespace)
+        inner = [('e', r.choice(FOREIGN), None, None, [('title', r.choice(AVALS))], [tree(r, 3)] if r.random() < 0.5 else [])
+                 for _ in range(r.randint(1, 3))]
+        kids.append(('e', 'svg', None, None, [], inner))
     return ('e', name, None, None, attrs, kids)
 
 
@@ -72,7 +78,7 @@ def make_cases_factory(state):
                 xml = bool(soup._is_xml)
                 plain_xml = pname == 'xml'
                 els = gen.elements(soup)
-                tag = rng.choice(TAGS)
+                tag = rng.choice(TAGS + FOREIGN + ['svg'])
                 an = rng.choice(ANAMES)
                 av = rng.choice(AVALS)
                 flag = rng.choice(['', '', ' i', ' s'])
